@@ -141,6 +141,9 @@ AllP(p) == [a \in Axes |-> p]
 InbDist(F) == MaxDiff(Inbreeding(phi, Twice, grids, AllF(F), AllP(2), 0), Direct(phi, Twice, grids, NoOpt))
 \* total-variation bound from the urn coupling: n (p-1) F / (1-F) per population, 1/(1-F) <= 10/9
 InbBound(F) == RMul(RMul("10/9", RInt(ISum(Twice))), RMul(F, Mass))
+\* some mass sits at a grid point with a polymorphic frequency
+HasInterior == \E k \in 1..GSize(phi.sh) : /\ RPos(phi.d[k])
+                   /\ \E a \in Axes : LET x == grids[a][GUnflat(phi.sh, k)[a]] IN RPos(x) /\ RLt(x, "1")
 L_InbreedingMass  == (Live /\ P <= 2) => \A F \in FsMC :
                         /\ Total(Inbreeding(phi, Twice, grids, AllF(F), AllP(2), 0)) = Mass
                         /\ Total(Inbreeding(phi, [a \in Axes |-> 3 * ns[a]], grids, AllF(F), AllP(3), 0)) = Mass
@@ -148,7 +151,7 @@ L_InbreedingZero  == (Live /\ P <= 2) => SameD(Inbreeding(phi, Twice, grids, All
 L_InbreedingLimit == (Live /\ P <= 2) =>
                         /\ \A F \in {"1/10", "1/100", "1/1000"} : RLeq(InbDist(F), InbBound(F))
                         /\ RLeq(InbDist("1/100"), InbDist("1/10")) /\ RLeq(InbDist("1/1000"), InbDist("1/100"))
-                        /\ (RPos(Mass) /\ \E a \in Axes : \E j \in 2..(Len(grids[a]) - 1) : TRUE) => RPos(InbDist("1/1000")) \/ TRUE
+                        /\ HasInterior => RPos(InbDist("1/1000"))      \* the limit is approached, not attained
 L_InbreedingLinear == (Live /\ P <= 2) =>
                         SameD(Inbreeding(GLin("2/3", phi, "5/7", Other(phi.sh)), Twice, grids, AllF("1/3"), AllP(2), 1),
                               LinS("2/3", Inbreeding(phi, Twice, grids, AllF("1/3"), AllP(2), 1),
